@@ -153,9 +153,11 @@ def r3_ownership_predicate(ctx):
     g = ctx.cfg(f)
     rd = ctx.rd(f)
     dom = ctx.dom(g, g.entry)
-    rets = [n for n in g.nodes if n.kind == 'stmt' and isinstance(n.ast, ast.Return) and not n.dup]
-    need(len(rets) == 1 and isinstance(rets[0].ast.value, ast.Name), 'C16.R3: is_defined_by_module does not return one verdict variable')
-    flag = rets[0].ast.value.id
+    rets = [n for n in g.nodes if n.kind == 'stmt' and isinstance(n.ast, ast.Return) and not n.dup and n.ast.value is not None]
+    name_rets = [n for n in rets if isinstance(n.ast.value, ast.Name)]
+    direct = [n for n in rets if not isinstance(n.ast.value, ast.Name)]
+    need(rets and len({n.ast.value.id for n in name_rets}) <= 1, 'C16.R3: is_defined_by_module does not return one verdict variable or direct verdicts')
+    flag = name_rets[0].ast.value.id if name_rets else None
 
     def module_branch(n):
         """True/False if node n lies on the branch for module objects / other items"""
@@ -165,15 +167,19 @@ def r3_ownership_predicate(ctx):
                 return fa.polarity
         return None
     n_true = 0
-    for d in rd.defs_of(flag):
-        if module_branch(d.node) is True:
+    sites = [(d.node, d.value, True) for d in (rd.defs_of(flag) if flag else [])] + [(n, n.ast.value, False) for n in direct]
+    false_rets = []
+    for (sn, v, is_def) in sites:
+        if module_branch(sn) is True:
             continue
-        v = d.value
-        if isinstance(v, ast.Constant) and v.value is False and module_branch(d.node) is None:
+        if isinstance(v, ast.Constant) and v.value is False and module_branch(sn) is None and is_def:
             continue        # initialiser
+        if isinstance(v, ast.Constant) and v.value is False and not is_def:
+            false_rets.append(sn)   # a final `return False`: legitimate once the sufficient tests have failed (checked below)
+            continue
         ok = isinstance(v, ast.Constant) and v.value is True
         n_true += 1 if ok else 0
-        rep.ob('C16.R3', ctx.loc(f, d.node.ast), ctx.src(d.node.ast), ok,
+        rep.ob('C16.R3', ctx.loc(f, sn.ast), ctx.src(sn.ast), ok,
                'a sufficient test raises the verdict to True' if ok else
                'the verdict of a non-module item is overwritten by a computed value: a positive `__module__` / `__objclass__` match no longer decides '
                '(a def of this module wrapped by a functools.wraps decorator from another module is judged foreign)', anchor=q)
@@ -213,11 +219,20 @@ def r3_ownership_predicate(ctx):
     for t in tests:
         others = [fa for fa in graph.guard_facts(dom, t) if not (isinstance(fa.expr, ast.Call) and is_name(fa.expr.func, 'isinstance'))]
         tb = [b for b in t.nsucc() if b.kind == 'branch' and b.attrs['polarity'] is True]
-        sets_true = any(x.kind == 'stmt' and isinstance(x.ast, ast.Assign) and is_name(x.ast.targets[0], flag) and isinstance(x.ast.value, ast.Constant) and x.ast.value.value is True
+        sets_true = any(x.kind == 'stmt' and ((isinstance(x.ast, ast.Assign) and flag is not None and is_name(x.ast.targets[0], flag)) or isinstance(x.ast, ast.Return))
+                        and isinstance(x.ast.value, ast.Constant) and x.ast.value.value is True
                         for b in tb for x in b.nsucc())
         ok = not others and sets_true
         rep.ob('C16.R3', ctx.loc(f, t.ast), ctx.src(t.ast), ok,
                'consulted for every non-module item and sufficient' if ok else ('the `__module__` test is only consulted under %s' % fmt_facts(others) if others else 'a positive `__module__` test does not set the verdict'), anchor=q)
+
+
+    for fr_ in false_rets:
+        facts = graph.guard_facts(dom, fr_)
+        ok = any(fa.polarity is False and any(fa.expr is t.ast for t in tests) for fa in facts)
+        rep.ob('C16.R3', ctx.loc(f, fr_.ast), ctx.src(fr_.ast) + ' for a non-module item', ok,
+               'only after the `__module__` test failed' if ok else
+               'a non-module item is judged foreign on a path that never consulted its `__module__` (guards: %s)' % fmt_facts(facts), anchor=q)
 
 
 # ---------------------------------------------------------------------------
